@@ -306,15 +306,17 @@ def strat_model():
             "material": mat, "model": name, "K": Kp, "n_m": nm, "field": field, "meta": meta},
         S.units(), S.ads_T(), S.material(), st.sampled_from(["Langmuir", "Henry", "Toth", "DSLangmuir", "BET"]),
         st.floats(0.01, 100).map(lambda x: round(x, 6)), st.floats(0.1, 50).map(lambda x: round(x, 6)),
-        st.sampled_from(["same_rebuild", "same_dict", "param", "model_name", "range", "rmse", "meta", "unit"]),
+        st.sampled_from(["same_rebuild", "same_dict", "param", "param_last_digits", "param_small_magnitude", "model_name", "range",
+                         "rmse", "meta", "unit"]),
         st.dictionaries(st.sampled_from(["user", "k1", "comment"]), st.one_of(st.integers(0, 5), st.text("abc", max_size=3)), max_size=2))
 
 
-def _model(desc, name=None, dK=0.0, prange=(0.0, 10.0), rmse=0.0):
+def _model(desc, name=None, dK=0.0, prange=(0.0, 10.0), rmse=0.0, kscale=1.0, kfactor=1.0):
     from pygaps.modelling import get_isotherm_model
     m = get_isotherm_model(name or desc["model"])
-    vals = {"K": desc["K"] + dK, "n_m": desc["n_m"], "t": 0.7, "n_m1": desc["n_m"], "K1": desc["K"] + dK, "n_m2": 1.5, "K2": 0.5,
-            "C": desc["K"] + dK + 1, "N": 0.3}
+    base_k = desc["K"] * kscale * kfactor
+    vals = {"K": base_k + dK, "n_m": desc["n_m"], "t": 0.7, "n_m1": desc["n_m"], "K1": base_k + dK, "n_m2": 1.5, "K2": 0.5,
+            "C": base_k + dK + 1, "N": 0.3}
     m.params = {k: vals[k] for k in m.param_names}
     m.pressure_range = list(prange)
     m.loading_range = [0.0, 5.0]
@@ -343,6 +345,15 @@ def check_model(desc, ctx):
         same = True
     elif f == "param":
         b = _miso(desc, _model(desc, dK=1e-3))
+        same = False
+    elif f == "param_last_digits":
+        # any change of a model parameter is a content change (the 8-decimal rounding applies to data points only)
+        b = _miso(desc, _model(desc, kfactor=1.0 + 1e-11))
+        same = False
+    elif f == "param_small_magnitude":
+        # parameters of small magnitude (e.g. an affinity per Pa): 1.2e-9 * K vs 3.4e-9 * K
+        a = _miso(desc, _model(desc, kscale=1.2e-9))
+        b = _miso(desc, _model(desc, kscale=3.4e-9))
         same = False
     elif f == "model_name":
         other = "Henry" if desc["model"] != "Henry" else "Langmuir"
